@@ -39,6 +39,7 @@ struct FakeDir {
 static std::set<FakeDir*> g_dirs;
 
 void reset() {
+  close_real_pipe_streams();
   for (auto* d : g_dirs) delete d;
   g_dirs.clear();
   g_world = World();
@@ -51,6 +52,14 @@ void reset() {
 }
 
 void calls_reset() { g_world.calls = Calls(); }
+
+struct Feeder {
+  int wfd = -1;
+  std::string data;
+  size_t fed = 0;
+  size_t max_chunk = 1;
+};
+static std::map<int, Feeder> g_feeders; // read end (real descriptor) -> writer state
 
 static bool tick() {
   World& w = g_world;
@@ -202,6 +211,63 @@ static OpenFile* live_fd(int fd) {
     return nullptr;
   }
   return of;
+}
+
+// ------------------------------------------------------------------ real pipe with a simulated writer
+
+extern "C" int __real_close(int);
+extern "C" ssize_t __real_write(int, const void*, size_t);
+extern "C" int __real_fcntl(int, int, ...);
+
+int open_real_pipe_stream(const std::string& data, size_t max_chunk) {
+  int fds[2];
+  if (::pipe(fds)) vsim::harness_bug("pipe failed");
+  int fl = __real_fcntl(fds[1], F_GETFL, 0);
+  __real_fcntl(fds[1], F_SETFL, fl | O_NONBLOCK);
+  Feeder f;
+  f.wfd = fds[1];
+  f.data = data;
+  f.max_chunk = max_chunk ? max_chunk : 1;
+  g_feeders[fds[0]] = f;
+  return fds[0];
+}
+
+size_t real_pipe_bytes_fed(int fd) {
+  auto it = g_feeders.find(fd);
+  return it == g_feeders.end() ? 0 : it->second.fed;
+}
+
+void close_real_pipe_streams() {
+  for (auto& kv : g_feeders) {
+    if (kv.second.wfd >= 0) __real_close(kv.second.wfd);
+    __real_close(kv.first);
+  }
+  g_feeders.clear();
+}
+
+// the writer's turn: called before each read() of the library on a fed pipe
+static void feed(Feeder& f) {
+  if (f.wfd < 0) return;
+  if (f.fed == f.data.size()) {
+    __real_close(f.wfd); // the writer is done: the next read sees EOF
+    f.wfd = -1;
+    vsim::ev("pipe.writer_closed", f.fed);
+    return;
+  }
+  size_t left = f.data.size() - f.fed;
+  size_t k = 1 + vsim::choose_range(0, std::min(left, f.max_chunk) - 1, "pipe.feed");
+  if (k > 60000) k = 60000; // stay below the pipe capacity so the writer never blocks
+  ssize_t w = __real_write(f.wfd, f.data.data() + f.fed, k); // non-blocking: a full pipe just means "no new data now"
+  if (w < 0 && (errno == EAGAIN || errno == EWOULDBLOCK)) {
+    vsim::ev("pipe.full", f.fed);
+    return; // the reader is behind; there is plenty in the pipe for its next read
+  }
+  if (w <= 0) vsim::harness_bug("feeding a real pipe failed");
+  k = w;
+  f.fed += k;
+  g_world.calls.short_reads++; // delivery in pieces: what the caller sees is a short read
+  VS_FAULT("staggered_pipe_write");
+  vsim::ev("pipe.feed", k, f.fed);
 }
 
 // ------------------------------------------------------------------ urandom
@@ -577,7 +643,22 @@ int __real_rmdir(const char*);
 
 ssize_t __wrap_read(int fd, void* buf, size_t n) {
   if (fd == URANDOM_FD) return urandom_read(buf, n);
-  if (!is_virtual(fd)) return __real_read(fd, buf, n);
+  if (!is_virtual(fd)) {
+    auto it = g_feeders.find(fd);
+    if (it != g_feeders.end()) {
+      g_world.calls.reads++;
+      if (!tick()) {
+        errno = EIO;
+        return -1;
+      }
+      feed(it->second);
+      ssize_t r = __real_read(fd, buf, n);
+      vsim::ev("pipe.read", n, (uint64_t)(int64_t)r);
+      if (r > 0) g_world.calls.bytes_read += r;
+      return r;
+    }
+    return __real_read(fd, buf, n);
+  }
   OpenFile* of = live_fd(fd);
   if (!of) return -1;
   return do_read(*of, buf, n, nullptr, false);
